@@ -59,7 +59,7 @@ def gen_opts(rng):
 def gen_size(rng):
     if rng.random() < 0.65:
         return None
-    return {'do_all': rng.randint(1, 6), 'do_all_exceptions': rng.randint(1, 4),
+    return {'do_all': rng.randint(0, 6), 'do_all_exceptions': rng.randint(0, 4),
             'max_sampled_attempts': rng.randint(0, 2), 'n_per_length': rng.choice([1, 2, 64])}
 
 
@@ -175,3 +175,42 @@ def fresh_results(histories, hashseed=0):
     if p.returncode != 0:
         raise RuntimeError('rx_fresh failed: ' + p.stderr[-400:])
     return _json.loads(p.stdout)
+
+
+class _RecordingRandom:
+    """stands in for the `random` module inside rexpy for one call: records what random.sample returns"""
+    def __init__(self, real):
+        self._real = real
+        self.calls = []
+
+    def sample(self, population, k):
+        r = self._real.sample(population, k)
+        self.calls.append([list(x) if isinstance(x, tuple) else x for x in r])
+        return r
+
+    def __getattr__(self, name):
+        return getattr(self._real, name)
+
+
+def run_extract_recorded(examples, opts, size, seed, form='list'):
+    """run_extract, also returning the results of every random.sample call made by rexpy, in order"""
+    rec = _RecordingRandom(rexpy.random)
+    rexpy.random = rec
+    try:
+        res, exc, _, _ = run_extract(examples, opts, size, seed, form)
+    finally:
+        rexpy.random = rec._real
+    return res, exc, rec.calls
+
+
+def modelled(examples, opts):
+    return not (any(s is not None and '\x00' in s for s in examples) or opts.get('full_escape'))
+
+
+def model_sampled_op(examples, opts, size, picks, form='list'):
+    op = model_extract_op(examples, opts, form)
+    sz = rexpy.Size(**size)
+    op['op'] = 'rx.extract_sampled'
+    op['cfg'] = {'do_all': sz.do_all, 'do_all_exceptions': sz.do_all_exceptions, 'max_attempts': sz.max_sampled_attempts}
+    op['picks'] = picks
+    return op
